@@ -519,6 +519,7 @@ def field_case(ctx):
         for k in range(nd):
             kw["vdim_mapping"][labels[int(perm[k])]] = dims[k]
             comp[k] = int(perm[k])
+        kw["vdim_mapping"] = gen.shuffle_keys(rng, kw["vdim_mapping"])
     field = df.Field(mesh, nvdim=nvdim, value=arr, valid=valid.copy(), **kw)
     subs = {k: Box(spec.vertex(lo), spec.vertex(hi)) for k, (lo, hi) in boxes.items()}
     model = Model(Box(spec.pmin, spec.pmax), spec.units, n=spec.n.copy(), subs=subs,
